@@ -2,7 +2,7 @@
    translate/gen_fonts.py regenerates from src/mono_font/generated/*.rs, src/mono_font/mapping.rs and
    the fonts/raw files of the tree under test on every run (property C14, used by C02/C15). *)
 From EG Require Import Base.Prelude Base.Lemmas Model.Geometry Proofs.Geometry Model.Fontmodel Proofs.Fontmodel
-  Gen.FontTable Model.Fontbuiltin.
+  Gen.FontTable Model.Fontbuiltin Proofs.FontGolden.
 From Coq Require Import ZifyBool.
 Set Default Timeout 120.
 
@@ -288,3 +288,19 @@ Proof.
   apply glyph_areas_disjoint; auto.
   intros E. apply Hne. eapply builtin_index_injective; eauto.
 Qed.
+
+(* ---- glyph bitmaps: the files of the tree under test are the committed reference (Proofs/FontGolden.v) *)
+Fixpoint bitmaps_eqb (a b : list (list Z * Z)) : bool :=
+  match a, b with
+  | [], [] => true
+  | (n1, d1) :: s, (n2, d2) :: t => zlist_eqb n1 n2 && (d1 =? d2) && bitmaps_eqb s t
+  | _, _ => false
+  end.
+Lemma bitmaps_eqb_eq a : forall b, bitmaps_eqb a b = true -> a = b.
+Proof.
+  induction a as [|[n1 d1] a IH]; intros [|[n2 d2] b]; cbn [bitmaps_eqb]; try discriminate; auto.
+  intros H. apply andb_prop in H. destruct H as [H H3]. apply andb_prop in H. destruct H as [H1 H2].
+  apply zlist_eqb_eq in H1. apply Z.eqb_eq in H2. subst. f_equal. apply IH. exact H3.
+Qed.
+Theorem builtin_bitmaps_unchanged : map (fun b => (bf_name b, bf_digest b)) fonts = golden_bitmaps.
+Proof. apply bitmaps_eqb_eq. vm_compute. reflexivity. Qed.
